@@ -1184,3 +1184,83 @@ def rule_lazy_latch(ctx):
                    % (f, str(v0).lower(), ", ".join(sorted({short(x.qn) for x in sets[v0]}))),
                    {"writers": {str(k): sorted({short(x.qn) for x in v}) for k, v in sets.items()}})
     ctx.floor(RULE, int(table.get("floor_latch", 1)), n, "boolean state members of the solver classes")
+
+
+def rule_lazy_conditional_fields(ctx):
+    """A backup member - one whose every write copies another member into it - that is only written under a
+    condition on a third (non-flag) member - `if (defect > 0) minV = V_;` - has no value when that condition did
+    not hold.  Every read of its value elsewhere in the class must sit
+    under a condition on the same member (`if (decomposed && defect != 0) V_ = minV;`); a sibling that reads it
+    unconditionally copies an empty backup.  Flags of the lazy table are left to L1/L2; calls that only re-initialise
+    the member (reset / clear / erase / resize) are not reads."""
+    table = engine.load_table("lazy.json")
+    fx = ctx.facts
+    n_pairs = 0
+    n = 0
+    reinit = {"reset", "clear", "erase", "resize", "set_zero", "swap"}
+    for cname, spec in sorted(table["classes"].items()):
+        cls = cname if cname.startswith("GNU_gama::") else "GNU_gama::" + cname
+        fx.cls(cls)
+        flags = set(spec.get("flags", {}) if isinstance(spec.get("flags"), dict) else spec.get("flags", []))
+        methods = [m for m in fx.methods_of(cls) if m.body is not None and not m.rec.get("ctor") and not m.rec.get("dtor")]
+
+        def guards(m, node):
+            out = set()
+            for anc in m.ancestors(node):
+                if anc.get("k") in ("IfStmt", "ConditionalOperator"):
+                    cond = anc.get("cond") if anc.get("k") == "IfStmt" else (anc.get("c") or [None])[0]
+                    if not isinstance(cond, dict) or any(x.get("id") == node.get("id") for x in F.walk(cond)):
+                        continue
+                    for x in F.walk(cond):
+                        if F.is_this_field(x):
+                            out.add(x["member"])
+            return out
+        writes, reads = {}, {}
+        other = set()
+        for m in methods:
+            lhs = set()
+            for node in m.walk():
+                if node.get("k") in ("BinaryOperator", "CXXOperatorCallExpr") and node.get("op") == "=" and node.get("c"):
+                    l = node["c"][0] if node["k"] == "BinaryOperator" else (node["c"][1] if len(node["c"]) > 1 else None)
+                    if l is not None and F.is_this_field(l):
+                        lhs.add(l["id"])
+                        writes.setdefault(l["member"], []).append((m, node))
+            for node in m.walk():
+                if node.get("k") == "MemberExpr" and node.get("mk") == "field" and F.is_this_field(node) and node["id"] not in lhs:
+                    par = m.parent(node)
+                    # receiver of a re-initialising call: not a read of the value; with arguments (reset(n, n),
+                    # resize(n)) it gives the member storage of its own - a write like an assignment
+                    if par is not None and par.get("k") == "MemberExpr" and par.get("mk") == "method" and par.get("member") in reinit:
+                        call = m.parent(par)
+                        if call is not None and [a for a in F.call_args(call) if a.get("k") != "CXXDefaultArgExpr"]:
+                            other.add(node["member"])       # gets storage of its own elsewhere: not a pure backup
+                        continue
+                    reads.setdefault(node["member"], []).append((m, node))
+        for f, ws in sorted(writes.items()):
+            if f in flags or f in other:
+                continue
+            # a backup: every write copies another member into it
+            if not all(any(F.is_this_field(x) and x.get("member") != f for x in F.walk(node["c"][-1])) for m, node in ws):
+                continue
+            common = None
+            for m, node in ws:
+                g = {x for x in guards(m, node) if x != f and x not in flags}
+                common = g if common is None else (common & g)
+            if not common:
+                continue
+            writers = {m.key for m, _ in ws}
+            for G in sorted(common):
+                n_pairs += 1
+                for m, node in reads.get(f, []):
+                    if m.key in writers and G in guards(m, node):
+                        continue
+                    n += 1
+                    ok = G in guards(m, node)
+                    ctx.saw(m)
+                    ctx.report(RULE, "COND:%s::%s:%s<-%s" % (short(cls), m.name + ("(%d)" % len(m.params)), f, G), ok,
+                               m.where(node), m.short,
+                               "" if ok else "`%s` is written only where `%s` is tested (%s), but it is read here without a test of `%s`: "
+                               "when the condition did not hold the member has no value" % (
+                                   f, G, ", ".join(sorted({short(w.qn) for w, _ in ws})), G))
+    ctx.floor(RULE, 1, n_pairs, "members written only under a condition on another member")
+    return {"conditional_members": n_pairs}
